@@ -1,14 +1,17 @@
 import os
 import vlib
 
-THEOREMS = []
+THEOREMS = ["Dispenso.Arena." + t for t in ['C37_seq_growBy', 'C37_seq_index_in_buffer', 'C37_seq_mk', 'C37_buffers_ledger', 'C37_pool_inv', 'C37_sem_copyCtor', 'C37_sem_copyAssign', 'C37_sem_moveAssign', 'C37_sem_swap', 'C37_sem_moveCtor', 'C37_sem_growBy', 'C37_conc_inv', 'C37_conc_index_in_buffer', 'C37_conc_local', 'C37_ranges_tile', 'C37_ranges_cover_once', 'C37_grow_returns_claim']]
 
 
 def run(ctx, replay):
-    ctx.cov["rule"] = ("random operation sequences (construct empty/from value, copy/move construct, copy/move assign incl. "
-                       "self-assignment, emplace, destroy, query) over a pool of OpResult<Tracked> objects, each mirrored on "
-                       "std::optional<Tracked> and on the Lean model; every sequence ends by destroying all objects; "
-                       "distinct = distinct request lines")
+    ctx.cov["rule"] = ("sequential layer: random operation sequences over pools of ConcurrentObjectArena (construction with "
+                       "min buffer sizes 1..6 and initial sizes, grow_by, element writes, copy construction, copy/move "
+                       "assignment, swap, destruction) compared with the Lean value model (size, capacity, number of buffers, "
+                       "returned position, last-buffer size, contents) under ASan/LSan; concurrent layer: 2..4 threads calling "
+                       "grow_by with amounts crossing buffer boundaries (buffer sizes 1,2,4,8) under the deterministic "
+                       "scheduler, traces replayed through the Lean protocol model; oracle: returned ranges tile [0,size), "
+                       "elements default-constructed, references stable; distinct = distinct request lines / scenario shapes")
     if THEOREMS:
         ctx.prove("DispensoVerif.Props.C37", THEOREMS)
     else:
